@@ -33,7 +33,7 @@ import sys
 from pathlib import Path
 
 REPO = Path(os.environ.get('VERIF_REPO', '/repo'))
-OUT = Path(__file__).resolve().parent.parent / 'coq' / 'theories' / 'Gen' / 'Control.v'
+OUT = Path(os.environ.get('CTL_OUT', str(Path(__file__).resolve().parent.parent / 'coq' / 'theories' / 'Gen' / 'Control.v')))
 
 
 KNOWN_CLASSES = set()
@@ -50,6 +50,11 @@ def coq_str(s):
 
 
 INERT_CALLS = {'len', 'type', 'str', 'repr', 'get_error_name'}
+
+
+def raised_name(cls):
+    """what get_error_name gives an instance of the class named `cls` in a raise statement"""
+    return coq_str(('pypyr.errors.' + cls) if cls in KNOWN_CLASSES else cls)
 
 
 def is_logging(st):
@@ -322,6 +327,8 @@ class Unit:
             return f'(opt_truth {t})'
         if ty == 'Z':
             return f'(negb (Z.eqb {t} 0))'
+        if ty == 'option Z':
+            return f'(match {t} with Some z => negb (Z.eqb z 0) | None => false end)'
         if ty == 'val':
             return f'(py_truth {t})'
         if ty.startswith('option (list'):
@@ -418,7 +425,14 @@ class Unit:
             if isinstance(st.exc, ast.Call) and isinstance(st.exc.func, ast.Name) and len(st.exc.args) == 1 \
                     and isinstance(st.exc.args[0], ast.Constant) and isinstance(st.exc.args[0].value, str) \
                     and st.cause is None:
-                return m_wrap(mode, f'(raise_new {coq_str(st.exc.func.id)} {coq_str(st.exc.args[0].value)} {s})')
+                return m_wrap(mode, f'(raise_new {raised_name(st.exc.func.id)} {coq_str(st.exc.args[0].value)} {s})')
+            if isinstance(st.exc, ast.Call) and isinstance(st.exc.func, ast.Name) and len(st.exc.args) == 1 \
+                    and isinstance(st.exc.args[0], ast.JoinedStr) and not st.exc.keywords and st.cause is None:
+                msg, partial = self.fstring(st.exc.args[0], env)
+                t = m_wrap(mode, f'(raise_new {raised_name(st.exc.func.id)} {msg} {s})')
+                for b, term in reversed(partial):
+                    t = f'(match {term} with Some {b} => {t} | None => {m_raise(mode, "OUnsup", s)} end)'
+                return t
             raise Untranslatable('raise form')
         if isinstance(st, ast.AugAssign) and isinstance(st.target, ast.Name) and st.target.id not in self.live:
             return cont(s, env)
@@ -477,8 +491,7 @@ class Unit:
             term, ty = self.eff_term(st.value, env, s)
             nx = self.new(x + '_')
             self.assign_log.append(x)
-            bound = self.coerce(nx, ty, self.spec.get('local_types', {}).get(x))
-            return f'({m_lift(mode)} {term} {s} (fun {nx} => {cont(s, {**env, x: bound})}))'
+            return f'({m_lift(mode)} {term} {s} (fun {nx} => {cont(s, {**env, x: (nx, ty)})}))'
         # x = factory(name)(kw=...): an object built by a registered factory (None = outside the model)
         if isinstance(st, ast.Assign) and len(st.targets) == 1 and isinstance(st.targets[0], ast.Name) \
                 and isinstance(st.value, ast.Call) and isinstance(st.value.func, ast.Call) \
@@ -497,27 +510,26 @@ class Unit:
                     f'| None => {m_raise(mode, "OUnsup", s)} end)')
         # x = poll.while_until_true(interval=I, max_attempts=M)(self.f)(context=context, step_method=cb, k=v...)
         if isinstance(st, ast.Assign) and len(st.targets) == 1 and isinstance(st.targets[0], ast.Name) \
-                and isinstance(st.value, ast.Call) and isinstance(st.value.func, ast.Call) \
-                and isinstance(st.value.func.func, ast.Call) \
-                and ast.unparse(st.value.func.func.func) == 'poll.while_until_true' and 'polled' in self.spec \
-                and mode[0] == 'eff':
-            deco, target, final = st.value.func.func, st.value.func.args, st.value
-            prim, tname, extra = self.spec['polled']
-            if deco.args or [k.arg for k in deco.keywords] != ['interval', 'max_attempts'] \
-                    or len(target) != 1 or ast.unparse(target[0]) != tname or final.args:
-                raise Untranslatable('polled call shape')
-            kw = {k.arg: k.value for k in final.keywords}
-            if set(kw) != {'context', 'step_method'} | {k for k, _ in extra} or not self.is_context_arg(kw['context']) \
-                    or not (isinstance(kw['step_method'], ast.Name) and kw['step_method'].id == 'step_method'):
-                raise Untranslatable('polled call arguments')
-            iv = self.expr(deco.keywords[0].value, env, 'interval')[0]
-            mx = self.expr(deco.keywords[1].value, env, 'option Z')[0]
-            ex = [self.expr(kw[k], env, ty)[0] for k, ty in extra]
+                and self.is_polled(st.value) and mode[0] == 'eff':
             x = st.targets[0].id
             nx, s2, o = self.new(x + '_'), self.new('s'), self.new('o')
             self.assign_log.append(x)
-            return (f'(match ({prim} {iv} {mx} {" ".join(ex)} {s}) with | (IDone {nx}, {s2}) => '
+            return (f'(match {self.polled(st.value, env, s)} with | (IDone {nx}, {s2}) => '
                     f'{cont(s2, {**env, x: (nx, "bool"), "__eff__": ("", "flag")})} | (IRaise {o}, {s2}) => ({o}, {s2}) end)')
+        # if [not] <polled call>: ...
+        if isinstance(st, ast.If) and mode[0] == 'eff' and (
+                self.is_polled(st.test) or (isinstance(st.test, ast.UnaryOp) and isinstance(st.test.op, ast.Not)
+                                            and self.is_polled(st.test.operand))):
+            neg = not self.is_polled(st.test)
+            callnode = st.test.operand if neg else st.test
+            b, s2, o = self.new('done_'), self.new('s'), self.new('o')
+            env2 = {**env, '__eff__': ('', 'flag')}
+            yes = self.block(st.body + rest, s2, env2, cur, k, mode)
+            no = self.block(st.orelse + rest, s2, env2, cur, k, mode)
+            if neg:
+                yes, no = no, yes
+            return (f'(match {self.polled(callnode, env, s)} with | (IDone {b}, {s2}) => '
+                    f'(if {b} then {yes} else {no}) | (IRaise {o}, {s2}) => ({o}, {s2}) end)')
         # context['k'] = v
         if isinstance(st, ast.Assign) and len(st.targets) == 1 and isinstance(st.targets[0], ast.Subscript) \
                 and isinstance(st.targets[0].value, ast.Name) and st.targets[0].value.id == 'context' \
@@ -728,6 +740,53 @@ class Unit:
                 and not e.keywords:
             return (e.args[0], 'fmt', 'val')
         return None
+
+    def is_polled(self, e):
+        return (isinstance(e, ast.Call) and isinstance(e.func, ast.Call) and isinstance(e.func.func, ast.Call)
+                and ast.unparse(e.func.func.func) == 'poll.while_until_true' and 'polled' in self.spec)
+
+    def polled(self, final, env, s):
+        """poll.while_until_true(interval=I, max_attempts=M)(self.f)(context=context, step_method=cb, k=v...)"""
+        deco, target = final.func.func, final.func.args
+        prim, tname, extra, ivty = self.spec['polled']
+        if deco.args or [k.arg for k in deco.keywords] != ['interval', 'max_attempts'] \
+                or len(target) != 1 or ast.unparse(target[0]) != tname or final.args:
+            raise Untranslatable('polled call shape')
+        kw = {k.arg: k.value for k in final.keywords}
+        if set(kw) != {'context', 'step_method'} | {k for k, _ in extra} or not self.is_context_arg(kw['context']) \
+                or not (isinstance(kw['step_method'], ast.Name) and kw['step_method'].id == 'step_method'):
+            raise Untranslatable('polled call arguments')
+        iv = self.expr(deco.keywords[0].value, env, ivty)[0]
+        mx = self.expr(deco.keywords[1].value, env, 'option Z')[0]
+        ex = [self.expr(kw[k], env, ty)[0] for k, ty in extra]
+        return f'({prim} {iv} {mx} {" ".join(ex)} {s})'.replace('  ', ' ')
+
+    def fstring(self, js, env):
+        """f-string -> (string term, [(binder, partial string term)]): values of the model print through
+        py_str, which is partial (None = a rendering outside the model)"""
+        parts, partial = [], []
+        for v in js.values:
+            if isinstance(v, ast.Constant) and isinstance(v.value, str):
+                parts.append(coq_str(v.value))
+                continue
+            if not isinstance(v, ast.FormattedValue) or v.conversion != -1 or v.format_spec is not None:
+                raise Untranslatable('f-string field')
+            t, ty = self.expr(v.value, env)
+            if ty == 'Z':
+                parts.append(f'(str_of_Z {t})')
+            elif ty == 'string':
+                parts.append(t)
+            elif ty == 'option Z':
+                parts.append(f'(match {t} with Some z => str_of_Z z | None => "None" end)')
+            elif ty in ('val', 'option val'):
+                if ty == 'option val':
+                    t = self.coerce(t, ty, 'val')[0]
+                b = self.new('txt')
+                partial.append((b, f'(py_str {t})'))
+                parts.append(b)
+            else:
+                raise Untranslatable(f'f-string field of type {ty}')
+        return '(' + ' ++ '.join(parts) + ')', partial
 
     def eff_term(self, e, env, s):
         """-> (res-valued coq term, type) for a context read, or `<context read> if <test> else <pure>`"""
@@ -1203,13 +1262,30 @@ RETRY_LOOP = {
     'factories': {'backoff_cache.get_backoff': ('prim_get_backoff', ['val'],
                                                 [('sleep', 'val'), ('max_sleep', 'option Q'), ('jrc', 'val'),
                                                  ('kwargs', 'val')], 'interval')},
-    'polled': ('prim_poll_exec_iteration', 'self.exec_iteration', [('max', 'option Z')]),
+    'polled': ('prim_poll_exec_iteration', 'self.exec_iteration', [('max', 'option Z')], 'interval'),
     'callbacks': {'step_method': ('prim_unused', [])},
     'fields': {}, 'ctors': {}, 'obj_methods': {},
     'methods': {'retry_loop': {'kind': 'eff', 'coq': 'gen_retry_loop', 'params': []}},
     'order': ['retry_loop'],
 }
-UNITS = [STEPSRUNNER, STEP, RETRY, WHILE, PIPELINE, PYPE, STEP_FOREACH, STEP_RUN, POLL, STEP_IN, STEP_COUNTERS, RETRY_LOOP]
+WHILE_LOOP = {
+    'file': 'pypyr/dsl.py', 'cls': 'WhileDecorator', 'section': 'GenWhileLoop',
+    'variables': [
+        ('w', 'wcfg', 'self: the while decorator as written in the pipeline'),
+        ('prim_poll_exec_iteration', 'Q -> option Z -> st -> iter_result * st',
+         'poll.while_until_true(interval, max_attempts)(self.exec_iteration)(context, step_method)'),
+    ],
+    'attrs': {'stop': ('(w_stop w)', 'option val'), 'max': ('(w_max w)', 'option val'),
+              'sleep': ('(w_sleep w)', 'val'), 'error_on_max': ('(w_eom w)', 'val')},
+    'fields_rw': ('while_counter',),
+    'local_types': {'max': 'option Z'},
+    'callbacks': {'step_method': ('prim_unused', [])},
+    'polled': ('prim_poll_exec_iteration', 'self.exec_iteration', [], 'Q'),
+    'fields': {}, 'ctors': {}, 'obj_methods': {},
+    'methods': {'while_loop': {'kind': 'eff', 'coq': 'gen_while_loop', 'params': []}},
+    'order': ['while_loop'],
+}
+UNITS = [STEPSRUNNER, STEP, RETRY, WHILE, PIPELINE, PYPE, STEP_FOREACH, STEP_RUN, POLL, STEP_IN, STEP_COUNTERS, RETRY_LOOP, WHILE_LOOP]
 
 
 def pure_call_hook(unit):
